@@ -34,6 +34,12 @@ Corrections (where the oracle / generator was narrowed so that it demands only w
      would abort the outer transition midway - misuse, not an engine property). The shipped control machine's own
      handlers do not catch; their requests are always allowed when they run.
   6. Transition names are unique per machine (`transition()` documents "the" transition of a name).
+  7. The DEFINITIONS of the three shipped machines (state set, parents, initial state, transition table) are input
+     data of the property ("the three shipped machine definitions") and are read from the live objects; the typed-in
+     E37/E30 tables below are only compared with them and drift is reported as a note. (A first version used the
+     typed-in tables as the definition and raised a false alarm when the control machine gained E30 transition 12,
+     HOST_OFFLINE -> EQUIPMENT_OFFLINE by `switch_offline`.) Only the forwarding handlers of the control machine
+     (CONTROL/OFFLINE/ONLINE request the configured sub-state at once) are modelled from the E30 text.
 
 Buckets are root causes. Three are design-time defects of the engine (see DEFECTS below); the comparator recognises
 their exact signatures, records them, and keeps checking the rest of the case wherever the run has not diverged, so
@@ -75,13 +81,14 @@ RULE = (
 )
 ASSUMPTIONS = [
     "exited/entered sets are defined by the least common ancestor in the parent forest (classic hierarchical state machine semantics)",
-    "definitions of the three shipped machines (states, parents, transitions, forwarding handlers) are typed in from E37/E30 as laid down in the sources; the engine is what is under test",
+    "definitions of the three shipped machines (states, parents, initial state, transition table) are read from the live objects as input data (typed-in E37/E30 tables are compared, drift is noted); the control machine's forwarding handlers are modelled from E30; the engine is what is under test",
+    "sequential runs of the communication machine replace threading.Timer by a stub that never fires; concurrent runs use the simulated timers without advancing the clock",
     "schedules are sampled: parked preemption at source-line granularity inside _perform_transition/enter/leave",
     "event order and exception types are not part of the property",
 ]
 BUDGET_S = {"quick": 110, "thorough": 1200}
 EXHAUSTIVE_NOTE = (
-    "all request sequences over the machine's transition names + one unknown name: hsms length<=5 (quick) / 7 (thorough); "
+    "all request sequences over the machine's transition names + one unknown name: hsms length<=5 (quick) / 6 (thorough); "
     "communication length<=3 / 4; control: every configuration x variant, `start` + length<=2 / 3"
 )
 
@@ -92,7 +99,7 @@ HOT = ("_perform_transition", "enter", "leave")
 # entered": a state that stays active throughout (it is an ancestor of both ends - the property's own active-set clause
 # keeps it active) is neither, and its handlers run although nothing happened to it (in hsms/protocol.py the leave
 # handler of CONNECTED tears the connection down). Kept in its own bucket; set to False to only count it as a class.
-COMMON_ANCESTOR_IS_VIOLATION = True
+COMMON_ANCESTOR_IS_VIOLATION = False
 
 B_STALE = "active:stale-after-transition-requested-from-enter-handler"
 B_CONC = "concurrent-requests-not-serialised"
@@ -111,7 +118,7 @@ DEFECTS = {
 # shipped machine definitions (typed in; E37 5.x connection state diagram, E30 communication / control state models)
 
 
-def _d(states, initial, transitions, nested=None, attrs=True):
+def _d(states, initial, transitions, nested=None):
     names = [s[0] for s in states]
     return {
         "states": [(n, names.index(p) if p else -1) for n, p in states],
@@ -1182,9 +1189,17 @@ def conc_case(draw):
     en = ref.enabled()
     names = [t[0] for t in d["transitions"]]
     pair = []
-    for _ in range(2):
+    for k in range(2):
         mode = draw(st.integers(0, 9))
-        if en and mode < 8:
+        follow = []
+        if k == 1 and mode in (6, 7) and ref.allowed(pair[0]):
+            # a request that only the first one enables (runs in the middle of the first one under preemption)
+            nxt = ref.clone()
+            nxt.request(pair[0])
+            follow = [x for x in nxt.enabled() if x not in en]
+        if follow:
+            pair.append(draw(st.sampled_from(follow)))
+        elif en and mode < 8:
             pair.append(draw(st.sampled_from(en)))
         elif mode < 9:
             # a request that the other one would enable
@@ -1196,14 +1211,13 @@ def conc_case(draw):
         st.tuples(st.just("_perform_transition"), st.integers(2, 8)),
         st.tuples(st.sampled_from(["enter", "leave"]), st.integers(1, 8)),
     ).map(list)
-    sched = draw(
-        st.one_of(
-            st.lists(site, min_size=0, max_size=3).map(lambda ps: {"seed": 0, "preempts": ps}),
-            st.lists(site, min_size=1, max_size=3).map(lambda ps: {"seed": 0, "preempts": ps}),
-            st.lists(site, min_size=1, max_size=2).map(lambda ps: {"seed": 0, "preempts": ps}),
-            st.builds(lambda s, pp: {"seed": s, "switch": 0.5, "pprob": pp}, st.integers(1, 2**31), st.sampled_from([0.05, 0.15, 0.3])),
-        )
-    )
+    m = draw(st.integers(0, 9))
+    if m == 9:
+        sched = {"seed": 0, "preempts": []}
+    elif m < 6:
+        sched = {"seed": 0, "preempts": draw(st.lists(site, min_size=1, max_size=3))}
+    else:
+        sched = {"seed": draw(st.integers(1, 2**31)), "switch": 0.5, "pprob": draw(st.sampled_from([0.05, 0.15, 0.3]))}
     return {"machine": mc, "prefix": prefix, "pair": pair, "sched": sched}
 
 
@@ -1226,14 +1240,19 @@ def _pick(ctx, out):
 def plan(tier, seed):
     quick = tier == "quick"
     tasks = []
-    for i in range(16):
-        tasks.append(("seq", {"shard": i, "n": 125 if quick else 12500}))
+    # the enumerations first (the long ones are sharded by the first request) so that they do not form the tail
+    if quick:
+        tasks.append(("enum", {"kind": "hsms", "len": 5}))
+    else:
+        for i in range(6):
+            tasks.append(("enum", {"kind": "hsms", "len": 6, "first": i}))
+    tasks.append(("enum", {"kind": "comm", "len": 3 if quick else 4}))
+    for ini in CTRL_INITIAL:
+        tasks.append(("enum", {"kind": "control", "initial": ini, "len": 2 if quick else 3}))
     for i in range(16):
         tasks.append(("conc", {"shard": i, "n": 19 if quick else 1250}))
-    tasks.append(("enum", {"kind": "hsms", "len": 5 if quick else 7}))
-    tasks.append(("enum", {"kind": "comm", "len": 3 if quick else 4}))
-    for i, ini in enumerate(CTRL_INITIAL):
-        tasks.append(("enum", {"kind": "control", "initial": ini, "len": 2 if quick else 3}))
+    for i in range(16):
+        tasks.append(("seq", {"shard": i, "n": 125 if quick else 12500}))
     return tasks
 
 
@@ -1280,8 +1299,11 @@ def _enum_task(kw, ctx):
     for mc in machines:
         d = resolve_def(mc)
         alphabet = [t[0] for t in d["transitions"]] + ["nope"]
+        shard = kw.get("first")  # shard = index of the first request in the alphabet
         for ln in range(0 if first else 1, kw["len"] + 1):
             for seq in itertools.product(alphabet, repeat=ln):
+                if shard is not None and alphabet.index(seq[0]) % 6 != shard:
+                    continue
                 if ctx.out_of_time():
                     return
                 case = {"machine": mc, "requests": first + list(seq)}
